@@ -37,7 +37,11 @@ func NewIndex(eng string, im mapping.IndexMapping, dir string) (bleve.Index, err
 		if dir == "" {
 			return nil, fmt.Errorf("engine %s needs a directory", eng)
 		}
-		return bleve.NewUsing(filepath.Join(dir, "idx"), im, scorch.Name, scorch.Name, nil)
+		// the background planner stays passive (merge budget = number of live documents):
+		// merges happen where the harness forces them, and the small segments that follow
+		// a merged one stay separate
+		return bleve.NewUsing(filepath.Join(dir, "idx"), im, scorch.Name, scorch.Name, map[string]interface{}{
+			"scorchMergePlanOptions": map[string]interface{}{"FloorSegmentSize": 1}})
 	case EngUpside:
 		return bleve.NewMemOnly(im)
 	}
